@@ -59,7 +59,7 @@ func checkC02(c *Ctx) {
 		var noQuorum, noVerify []string
 		nBoot := 0
 		for _, e := range exits {
-			facts := fl.At(e.Ret)
+			facts := e.Facts
 			// bootstrap exemptions (stated in the code): the genesis QC and the view-0 TC
 			if v.name == "VerifyQuorumCert" && hasCmp(facts, "==", is(kQCHash+"p1)"), is(kGenesis)) {
 				nBoot++
@@ -196,7 +196,7 @@ func checkQCViewBinding(c *Ctx, rule string) {
 	var badGen, bad []string
 	nGen, nReg := 0, 0
 	for _, e := range exits {
-		facts := fl.At(e.Ret)
+		facts := e.Facts
 		if hasCmp(facts, "==", is(kQCHash+"p1)"), is(kGenesis)) {
 			nGen++
 			if !(hasCmp(facts, "==", is(kQCView+"p1)"), is("c:0")) || hasCmp(facts, "==", is(kQCView+"p1)"), is(kBlockView+"hs.GetGenesis())"))) {
@@ -244,7 +244,7 @@ func c02Schemes(c *Ctx) {
 			// C02.5 foreign type / empty set
 			var noType, noEmpty []string
 			for _, e := range exits {
-				facts := fl.At(e.Ret)
+				facts := e.Facts
 				if !trueOf(facts, func(k string) bool {
 					return strings.HasPrefix(k, "assert[hs/security/crypto.Multi[") && strings.HasSuffix(k, "](p1)#1")
 				}) {
@@ -280,7 +280,7 @@ func c02Schemes(c *Ctx) {
 		fl := NewFlow(p, vs)
 		var bad, noSig []string
 		for _, e := range successExits(fl, 0) {
-			facts := fl.At(e.Ret)
+			facts := e.Facts
 			if !trueOf(facts, func(k string) bool {
 				return strings.HasPrefix(k, "(*hs/core.RuntimeConfig).ReplicaInfo(") && strings.Contains(k, ".Signer(") && strings.HasSuffix(k, "#1")
 			}) {
@@ -307,7 +307,7 @@ func c02Schemes(c *Ctx) {
 		fl := NewFlow(p, fn)
 		var noType []string
 		for _, e := range successExits(fl, 0) {
-			if !trueOf(fl.At(e.Ret), func(k string) bool {
+			if !trueOf(e.Facts, func(k string) bool {
 				return strings.HasPrefix(k, "assert[*hs/security/crypto.BLS12AggregateSignature](p1)#1")
 			}) {
 				noType = append(noType, p.Pos(e.Ret.Pos()))
@@ -319,7 +319,7 @@ func c02Schemes(c *Ctx) {
 		fl := NewFlow(p, pk)
 		var bad []string
 		for _, e := range successExits(fl, 1) {
-			if !trueOf(fl.At(e.Ret), func(k string) bool {
+			if !trueOf(e.Facts, func(k string) bool {
 				return strings.HasPrefix(k, "(*hs/core.RuntimeConfig).ReplicaInfo(") && strings.Contains(k, ", p1)") && strings.HasSuffix(k, "#1")
 			}) {
 				bad = append(bad, p.Pos(e.Ret.Pos()))
@@ -351,7 +351,7 @@ func dupGate(c *Ctx, fl *Flow, exits []SuccessExit) (Verdict, string) {
 	allHelper := true
 	helperName := ""
 	for _, e := range exits {
-		facts := fl.At(e.Ret)
+		facts := e.Facts
 		found := false
 		for f := range facts {
 			if f.Op != "false" {
@@ -385,7 +385,7 @@ func dupGate(c *Ctx, fl *Flow, exits []SuccessExit) (Verdict, string) {
 	}
 	allLen := len(exits) > 0
 	for _, e := range exits {
-		facts := fl.At(e.Ret)
+		facts := e.Facts
 		ok := hasCmp(facts, "==", func(k string) bool { return strings.HasPrefix(k, "builtin len(make@") }, func(k string) bool {
 			return strings.HasPrefix(k, "builtin len(assert[") || strings.HasPrefix(k, kPartLen)
 		})
@@ -544,7 +544,13 @@ func boolStr(b bool) string {
 func collectNilTests(fl *Flow, exits []SuccessExit) []ssa.Value {
 	var out []ssa.Value
 	for _, e := range exits {
-		facts := fl.At(e.Ret)
+		facts := e.Facts
+		// `return err`: the caller's nil test is the test
+		if n := len(e.Ret.Results); n > 0 {
+			if v := retValue(e.Ret, n-1); !isNilConst(v) && v.Type().String() == "error" {
+				out = append(out, v)
+			}
+		}
 		eachInstr(fl.Fn, func(in ssa.Instruction) {
 			b, ok := in.(*ssa.BinOp)
 			if !ok || (b.Op != token.NEQ && b.Op != token.EQL) {
@@ -563,9 +569,22 @@ func collectNilTests(fl *Flow, exits []SuccessExit) []ssa.Value {
 
 func c02FindHighest(c *Ctx) {
 	p := c.P
-	fn := p.Method("security/cert", "Authority", "findHighestValidQC")
+	// the selection of the highest valid QC: the function, among VerifyAggregateQC and the helpers of its
+	// package it calls, that sorts the candidates (today the helper findHighestValidQC)
+	var fn *ssa.Function
+	if vagg := p.Method("security/cert", "Authority", "VerifyAggregateQC"); vagg != nil {
+		for _, hf := range helperClosure(p, vagg, 2) {
+			if len(callsIn(hf, false, func(cc *ssa.CallCommon) bool {
+				cal := cc.StaticCallee()
+				return cal != nil && (strings.HasPrefix(cal.String(), "slices.SortFunc") || strings.HasPrefix(cal.String(), "slices.SortStableFunc") || strings.HasPrefix(cal.String(), "sort.Slice"))
+			})) > 0 {
+				fn = hf
+				break
+			}
+		}
+	}
 	if fn == nil {
-		c.Unresolved("C02.7", "findHighestValidQC", "anchor missing")
+		c.Unresolved("C02.7", "findHighestValidQC", "anchor missing: no function reachable from VerifyAggregateQC sorts the candidate certificates")
 		return
 	}
 	fl := NewFlow(p, fn)
@@ -573,7 +592,7 @@ func c02FindHighest(c *Ctx) {
 	exits := successExits(fl, 1)
 	for _, e := range exits {
 		for _, lf := range leaves(fl, retValue(e.Ret, 0), e.Ret) {
-			k := fl.K.Key(lf.Val)
+			k := lf.KeyIn(fl)
 			if !errNilOf(lf.Facts, func(x string) bool { return strings.HasPrefix(x, kVerifyQC) && strings.Contains(x, ", "+k+")") }) {
 				bad = append(bad, k+" at "+p.Pos(e.Ret.Pos()))
 			}
@@ -587,7 +606,7 @@ func c02FindHighest(c *Ctx) {
 	var sorted string
 	eachInstr(fn, func(in ssa.Instruction) {
 		call, ok := in.(*ssa.Call)
-		if !ok || call.Call.StaticCallee() == nil || !strings.HasPrefix(call.Call.StaticCallee().String(), "slices.SortFunc") {
+		if !ok || call.Call.StaticCallee() == nil || !(strings.HasPrefix(call.Call.StaticCallee().String(), "slices.SortFunc") || strings.HasPrefix(call.Call.StaticCallee().String(), "slices.SortStableFunc")) {
 			return
 		}
 		sorted = fl.K.Key(call.Call.Args[0])
@@ -621,7 +640,7 @@ func c02FindHighest(c *Ctx) {
 		var bad []string
 		for _, e := range successExits(fa, 0) {
 			viaOK := e.Via != nil && strings.HasPrefix(fa.K.Key(e.Via), kVerifyQC) && strings.Contains(fa.K.Key(e.Via), kBlockQC+"p1"+kPropBlock+"))")
-			if !viaOK && !errNilOf(fa.At(e.Ret), func(k string) bool {
+			if !viaOK && !errNilOf(e.Facts, func(k string) bool {
 				return strings.HasPrefix(k, kVerifyQC) && strings.Contains(k, kBlockQC+"p1"+kPropBlock+"))")
 			}) {
 				bad = append(bad, p.Pos(e.Ret.Pos()))
@@ -771,7 +790,7 @@ func c02CheckPop(c *Ctx) {
 	var bad []string
 	exits := successExits(fl, 0)
 	for _, e := range exits {
-		facts := fl.At(e.Ret)
+		facts := e.Facts
 		hit := trueOf(facts, func(k string) bool { return strings.Contains(k, "bls12Base.popCache[") && strings.HasSuffix(k, "#0") }) &&
 			trueOf(facts, func(k string) bool { return strings.Contains(k, "bls12Base.popCache[") && strings.HasSuffix(k, "#1") })
 		verified := (e.Via != nil && calleeIs(&e.Via.Call, pv)) || errNilOf(facts, func(k string) bool { return strings.HasPrefix(k, "(*hs/security/crypto.bls12Base).popVerify(") })
